@@ -36,6 +36,14 @@ def expr(ch: Choices, vs: list[str], depth: int = 0) -> str:
         if c == 1:
             return f"[{el} {gens}{flt}]"
         return f"array({el} for {it} in range({ch.pick(['3'] + vs, 'arr_n')}))"
+    if k == 9 and ch.draw(2, "more_exprs"):
+        a, b_ = expr(ch, vs, depth + 1), expr(ch, vs, depth + 1)
+        v = ch.pick(vs, "xv")
+        forms = (f"{v}[{a}]", f"{v}.f", f"-{a}", f"({a} < {b_} < {ch.pick(vs, 'xc')})",
+                 f"({a} and {b_})", f"(not {a} or {b_})", f"comptime({v} + 1)", f"py({v})",
+                 f"f({a}, k={b_})", f"f(*{v})", f"({a}, {b_})", f"[{a}, {b_}]", f"{{{a}: {b_}}}",
+                 f"f'{{{v}}}'", f"{v}[1:{a}]", f"(lambda: {v})", f"({v} @ {a})")
+        return forms[ch.draw(len(forms), "xform")]
     return f"f({expr(ch, vs, depth + 1)})"
 
 
@@ -64,9 +72,17 @@ def body(ch: Choices, vs: list[str], depth: int, in_loop: bool, budget: list[int
         if budget[0] <= 0:
             break
         budget[0] -= 1
-        k = ch.draw(22, "stmt")
+        k = ch.draw(26, "stmt")
         if no_jumps and k in (13, 14, 15):
             k = 19
+        if k >= 22:
+            t, t2 = ch.pick(vs, "t"), ch.pick(vs, "t2")
+            e = expr(ch, vs)
+            forms = (f"{t}[{expr(ch, vs, 1)}] = {e}", f"{t}.f = {e}", f"{t}: int = {e}", f"{t}: int",
+                     f"{t} = {t2} = {e}", f"{t}, *{t2} = {e}", f"({t}, {t2}), {ch.pick(vs, 't3')} = {e}",
+                     f"{t}[{t2}] += {e}", f"{t}.f += {e}")
+            out.append(forms[ch.draw(len(forms), "sform")])
+            continue
         if k < 5:
             out.append(f"{ch.pick(vs, 't')} = {expr(ch, vs)}")
         elif k < 7:
@@ -87,7 +103,11 @@ def body(ch: Choices, vs: list[str], depth: int, in_loop: bool, budget: list[int
             out.append(f"while {cond(ch, vs)}:")
             out += ind(body(ch, vs, depth + 1, True, budget, nested_ok, no_jumps))
         elif k == 12 and depth < 3:
-            out.append(f"for {ch.pick(vs, 'for_t')} in range({ch.draw(4, 'n')}):")
+            tgt = ch.pick(vs, 'for_t')
+            if ch.draw(3, "for_tuple") == 0:
+                tgt = f"{tgt}, {ch.pick(vs, 'for_t2')}"
+            it = f"range({ch.draw(4, 'n')})" if ch.draw(2, "for_range") else ch.pick(vs, "for_it")
+            out.append(f"for {tgt} in {it}:")
             out += ind(body(ch, vs, depth + 1, True, budget, nested_ok, no_jumps))
         elif k == 13 and in_loop:
             out.append("break")
